@@ -90,12 +90,17 @@ def model_check(chk, cfgname, workers=8):
     return plans
 
 
-def replay_and_validate(chk, behaviours, label, prefixes, seed=None):
+def replay_and_validate(chk, behaviours, label, prefixes, seed=None, isolate=False):
     w = chk.work
     bpath = os.path.join(w, label + ".beh.ndjson")
     tpath = os.path.join(w, label + ".trace.ndjson")
     vlib.write_ndjson(bpath, behaviours)
-    s = vlib.harness(["cer", "replay", "--in", bpath, "--out", tpath, "--seed", chk.seed if seed is None else seed])
+    args = ["cer", "replay", "--in", bpath, "--out", tpath, "--seed", chk.seed if seed is None else seed]
+    if isolate:
+        args += ["--isolate", "1"]
+    s = vlib.harness(args, timeout=3600)
+    if isolate:
+        chk.cov["child_crashes"] = chk.cov.get("child_crashes", 0) + s.get("child_crashes", 0)
     r = vlib.tlc("CerTrace.tla", "CerTrace.cfg", w, env={"TRACE": tpath}, workers=1, timeout=3600, depth_first=True, xmx="6g")
     vlib.tlc_must_complete(r, "CerTrace on " + label)
     res = r.prints("RESULT")
@@ -122,7 +127,8 @@ def replay_and_validate(chk, behaviours, label, prefixes, seed=None):
         chk.violation(sig, "%s is false in run %d of %s, ceremony %d (%s %s): %s" % (
             inv, v["run"], label, v["ci"], cer[0]["d"]["api"], cer[0]["d"]["op"],
             json.dumps([e for e in cer if e["ev"] in ("End", "Crash", "Cancel")])[:400]),
-            {"kind": "cer", "behaviour": behaviours[v["run"]], "events": run})
+            {"kind": "cer", "behaviour": behaviours[v["run"]], "behaviours": behaviours[max(0, v["run"] - 1):v["run"] + 1],
+             "events": run})
     if other:
         chk.note("invariants of other properties false in %s (reported by their own checks): %s" % (label, other))
     if res["drift"]:
@@ -159,5 +165,6 @@ def replay_file(chk, path, prefixes):
     rp = json.load(open(path))["replay"]
     if rp.get("kind") != "cer":
         raise vlib.ToolError("cannot replay kind %s" % rp.get("kind"))
-    replay_and_validate(chk, [rp["behaviour"]], "replay", prefixes)
+    beh = rp.get("behaviours") or [rp["behaviour"]]
+    replay_and_validate(chk, beh, "replay", prefixes, isolate=True)
     chk.cov["distinct_nontrivial"] = max(2, chk.cov["distinct_nontrivial"])
